@@ -55,6 +55,11 @@ def search(ctx):
         pt = rng.standard_normal(3) * 2; vt = rng.standard_normal(3); at = rng.standard_normal(3)
         p = pt + rng.standard_normal(3) * rng.choice([0.0, 0.1, 3.0]); v = vt + rng.standard_normal(3) * rng.choice([0.0, 1.0])
         yaw = float(rng.uniform(-3.1, 3.1)); qc = nl.quat_axis_angle([0, 0, 1], yaw) * rng.choice([-1, 1])
+        if it % 2 == 1 and kind < 4:
+            # tilted / gimballed camera: the commanded heading is the 3-2-1 yaw of qc, whatever its pitch and roll
+            qc = nl.quat_mul(nl.quat_mul(qc, nl.quat_axis_angle([0, 1, 0], float(rng.uniform(-1.2, 1.2)))),
+                             nl.quat_axis_angle([1, 0, 0], float(rng.uniform(-2.5, 2.5))))
+            yaw = yaw_of(qc)
         br = "main"
         if kind == 4:      # near-zero thrust: everything cancels
             p, v, at, trim, zi = pt.copy(), vt.copy(), np.zeros(3), 0.0, 0.0; br = "zero_thrust"
@@ -145,6 +150,16 @@ def search(ctx):
         pq = np.array([-C[:, 1] @ zdot, C[:, 0] @ zdot])
         if not np.max(np.abs(pq - om2[:2])) <= 1e-5 * (1 + np.max(np.abs(om2))):
             report("ref:rates", "roll/pitch rates are not the rotation rate of the thrust axis", inp, np.max(np.abs(pq - om2[:2])), 1e-5)
+        # Euler's equation for a general inertia (products of inertia J_xz != 0; the function takes them as inputs)
+        Jg = (float(rng.uniform(0.01, 0.05)), float(rng.uniform(0.01, 0.05)), float(rng.uniform(0.02, 0.08)), float(rng.uniform(-0.008, 0.008)))
+        mg_ = float(rng.uniform(0.5, 3.0))
+        o3 = mr(psi, psid, psidd, v, a, j, s, mg_, 9.8, *Jg); ev += 1
+        Jgm = np.array([[Jg[0], 0, Jg[3]], [0, Jg[1], 0], [Jg[3], 0, Jg[2]]])
+        w3, wd3, M3 = np.ravel(o3[2]), np.ravel(o3[3]), np.ravel(o3[4])
+        Mexp3 = Jgm @ wd3 + np.cross(w3, Jgm @ w3)
+        if np.all(np.isfinite(Mexp3)) and not np.max(np.abs(Mexp3 - M3)) <= 1e-9 * (1 + np.max(np.abs(Mexp3))):
+            report("ref:euler:general-inertia", "moment does not satisfy Euler's equation for the returned rates (general inertia, J_xz != 0)",
+                   dict(inp, m=mg_, J=list(Jg)), np.max(np.abs(Mexp3 - M3)), 1e-9)
         Mexp = Jm @ omd2 + np.cross(om2, Jm @ om2)
         if not np.max(np.abs(Mexp - Mb2)) <= 1e-9 * (1 + np.max(np.abs(Mexp))):
             report("ref:euler", "moment does not satisfy Euler's equation for the returned rates", inp, np.max(np.abs(Mexp - Mb2)), 1e-9)
